@@ -6,6 +6,8 @@ x_compile   source programs for the X-series compilers (Xstrict / Xunitary / Xco
             harness-built X-style layouts for 2, 4, 6, 8 modes with generated parameter ranges.
 borealis    3-loop time-domain programs compiled for generated loop-phase certificates; explicit-loop reference.
 tdm_generic small generated single-loop device layouts for the generic "TDM" / "TD2" compilers (layout + ranges only).
+vacuum_padding  tdm.utils.vacuum_padding on the three Borealis loops used as tdm.utils.borealis_gbs uses them (opened for their delay or
+            bypassed): explicit-loop reference, every photon must have reached the detector when the padded program ends.
 
 All oracles are computed by the harness from the *spec dictionary* (layout text parsed by blackbird, own range test) and
 from refsim; nothing is imported from /repo/tests and neither `Ranges` nor `match_template` is used to decide.
